@@ -101,6 +101,15 @@ class Files:
                 self.cache[key] = (ARC, ref.shape[1], ref)
             else:
                 t, top, paths = tf.write_files(self.dir, n, [ext], cell=cell)
+                if ext == "dcd" and n in (8, 9):
+                    # a DCD whose header frame count disagrees with the frames present (0 from a streaming writer for the 8-frame file, one
+                    # short from a killed writer for the 9-frame file): the reader derives the count from the file size
+                    import struct
+                    buf = bytearray(open(paths[ext], "rb").read())
+                    struct.pack_into("<i", buf, 8, 0 if n == 8 else n - 1)
+                    pp = paths[ext].replace(".dcd", "_nset.dcd")
+                    open(pp, "wb").write(bytes(buf))
+                    paths[ext] = pp
                 self.cache[key] = (paths[ext], t.n_atoms, None)
         return self.cache[key]
 
@@ -207,7 +216,7 @@ def run(ctx):
     ]
     for ext in EXTS:
         has_len = ext in tf.HAS_LEN
-        for n in sizes:
+        for n in sizes + ([8, 9] if ext == "dcd" else []):
             if ext == "arc" and n != sizes[0]:
                 continue
             nn = n
